@@ -117,7 +117,7 @@ func c20BlockingStormOnce(seed int64, st *c20Stats) {
 	time.Sleep(time.Duration(60+rng.Intn(60)) * time.Millisecond)
 	close(stop)
 	stopSetter.Store(true)
-	if !c20WaitTimeout(&wg, 10*time.Second) {
+	if !c20WaitTimeout(&wg, 60*time.Second) {
 		fmt.Printf("C20STUCK seed=%d phase=blocking-writers-do-not-return\n", seed)
 		atomic.AddInt64(&st.stuck, 1)
 		return
@@ -129,7 +129,7 @@ func c20BlockingStormOnce(seed int64, st *c20Stats) {
 	}
 	next := make([]uint32, nWriters)
 	recvd := uint32(0)
-	deadline := time.After(8 * time.Second)
+	deadline := time.After(45 * time.Second)
 	bad := false
 	for recvd < want && !bad {
 		select {
@@ -159,7 +159,7 @@ func c20BlockingStormOnce(seed int64, st *c20Stats) {
 				diagB += fmt.Sprintf(" headMID(mid=%d nchunks=%d)", rq.orderedMID[0].mid, len(rq.orderedMID[0].chunks))
 			}
 			rs.lock.RUnlock()
-			fmt.Printf("C20ORDER seed=%d blocking-write storm (il=%v): %d writes returned nil but only %d messages were delivered within 8 s after the storm (per writer accepted=%v delivered=%v, sender buffered=%d) %s; %s\n",
+			fmt.Printf("C20ORDER seed=%d blocking-write storm (il=%v): %d writes returned nil but only %d messages were delivered within 45 s after the storm (per writer accepted=%v delivered=%v, sender buffered=%d) %s; %s\n",
 				seed, il, want, recvd, okCount, next, a.BufferedAmount(), diagA, diagB)
 			bad = true
 		}
